@@ -153,6 +153,12 @@ func Bytes(data any, args ...any) []byte {
 	if wr == nil {
 		wr, _ = writerPool.Get().(*Writer)
 		defer writerPool.Put(wr)
+		// The writer goes back to the pool so the caller needs a buffer of
+		// its own, the next user of the writer overwrites the writer buffer.
+		b := wr.MustSEN(data)
+		out := make([]byte, len(b))
+		copy(out, b)
+		return out
 	}
 	return wr.MustSEN(data)
 }
